@@ -15,9 +15,15 @@ NestDoc == [t |-> "rec", v |-> <<
    [k |-> "leaf", v |-> L2], [k |-> "t", v |-> Str(<<"alnum">>)] >>]
 Cases == { [s |-> "Ent", av |-> EntDoc, specs |-> { {}, {S(<<"id">>)}, {S(<<"nested", "b">>)}, {S(<<"tags", "*", "b">>)}, {S(<<"created">>), S(<<"id">>)},
                                                    {S(<<"nested">>)}, {S(<<"name">>)}, {S(<<"tags", "*">>)}, {S(<<"*", "b">>)}, {S(<<"nested">>), S(<<"nested", "b">>)},
-                                                   {S(<<"id">>), S(<<"nested", "b">>), S(<<"tags", "*", "b">>), S(<<"created">>)} }],
+                                                   {S(<<"id">>), S(<<"nested", "b">>), S(<<"tags", "*", "b">>), S(<<"created">>)},
+                                                   \* a nested record emptied by exclusion, then siblings with excluded content
+                                                   {S(<<"nested", "a">>), S(<<"nested", "b">>), S(<<"tags", "*", "b">>)},
+                                                   {S(<<"nested", "a">>), S(<<"nested", "b">>), S(<<"created">>)},
+                                                   {S(<<"tags", "*", "a">>), S(<<"tags", "*", "b">>), S(<<"created">>)} }],
            [s |-> "Nest", av |-> NestDoc, specs |-> { {S(<<"arr", "*", "a">>)}, {S(<<"m", "*", "b">>)}, {S(<<"m", "*">>)}, {<< <<"m">>, <<"k", "1">> >>},
-                                                     {S(<<"u", "vt.Leaf", "a">>)}, {S(<<"leaf">>)}, {S(<<"*", "a">>)}, {S(<<"leaf", "a">>), S(<<"t">>)} }] }
+                                                     {S(<<"u", "vt.Leaf", "a">>)}, {S(<<"leaf">>)}, {S(<<"*", "a">>)}, {S(<<"leaf", "a">>), S(<<"t">>)},
+                                                     {S(<<"leaf", "a">>), S(<<"leaf", "b">>), S(<<"t">>)}, {S(<<"m", "*", "a">>), S(<<"m", "*", "b">>), S(<<"u", "vt.Leaf", "a">>)},
+                                                     {S(<<"arr", "*", "a">>), S(<<"arr", "*", "b">>), S(<<"leaf", "b">>)} }] }
 VARIABLES case, spec, doc
 Init == case \in Cases /\ spec \in case.specs /\ doc = None
 Next == doc = None /\ doc' \in {StripNulls(d) : d \in DocVariants([k |-> "ref", n |-> case.s], case.av)} /\ UNCHANGED <<case, spec>>
